@@ -253,8 +253,11 @@ pub fn check(c: &Case) -> Outcome {
 }
 
 pub fn strategy() -> BoxedStrategy<Case> {
-    (prob_spec(4, 0.5, 8.0), prop_oneof![14 => span_mid().boxed(), 1 => span_tiny().boxed()], any_method(), tols(4, 3.0, 9.0), any::<bool>(), proptest::option::weighted(0.2, log10(-1.5, 0.0)))
-        .prop_flat_map(|(prob, span, method, tol, aj, ms)| {
+    (prob_spec(4, 0.5, 8.0), prop_oneof![14 => span_mid().boxed(), 1 => span_tiny().boxed(), 1 => span_far().boxed()], any_method(), tols(4, 3.0, 9.0), any::<bool>(), proptest::option::weighted(0.2, log10(-1.5, 0.0)))
+        .prop_flat_map(|(mut prob, span, method, tol, aj, ms)| {
+            if span.x0.abs() > 1e4 {
+                prob.warp.k = 0;
+            }
             let n: usize = prob.blocks.iter().map(|b| b.dim()).sum();
             (
                 Just((prob, span, method, tol, aj, ms)),
